@@ -321,6 +321,232 @@ def operator_level(ctx, info):
     return d, len(clean), ub
 
 
+# --------------------------------------------------------------------------------------------
+# program level
+
+def build_prog(ctx):
+    return common.build_full(ctx, "h_errprog", ["errprog.cpp"], extra=["-ldl"])
+
+
+def opcode_names():
+    names, table = vmopsgen.parse_opcodes()
+    return names
+
+
+def parse_result(line):
+    """`ok k=v k=[...] ...` -> dict (values keep their brackets stripped)"""
+    f = {}
+    for kv in line.split(" ")[1:]:
+        if "=" in kv:
+            k, v = kv.split("=", 1)
+            f[k] = v[1:-1] if v.startswith("[") and v.endswith("]") else v
+    return f
+
+
+class ProgMonitor:
+    """the property as a predicate on the observations of one program run"""
+
+    def __init__(self, info):
+        self.classes = {}
+        self.hist_thrown = {}
+        self.transitions = set()
+        # warning / abort classification of exception classes from the regenerated hierarchy
+        self.resolved = vmopsgen.resolve(vmopsgen.parse_classes())
+
+    def derives(self, c, base, depth=0):
+        if c == base:
+            return True
+        if depth > 8:
+            return False
+        return any(self.derives(b, base, depth + 1) for b in self.resolved.get(c, []))
+
+    def check(self, prog, line):
+        """-> list of (signature, why)"""
+        bad = []
+        if not line.startswith("ok "):
+            return [("prog-harness:" + line[:40], "harness answered `%s`" % line[:80])]
+        f = parse_result(line)
+        if f.get("compiled") != "1":
+            return []
+        log = [e for e in f.get("log", "").split("|") if e]
+        outs = [e[2:] for e in log if e.startswith("O:")]
+        if f.get("sentinel") != "1":
+            bad.append(("prog-sentinel", "the sentinel script did not compile and run after the program"))
+        ends = [e for e in f.get("ends", "").split(",") if e]
+        if any(e != "0" for e in ends):
+            bad.append(("prog-stack-at-end", "a thread ended with a non-empty operand stack: %s" % ends))
+        for e in log:
+            if e.startswith("X:") and not e.startswith("X:A:"):
+                bad.append(("prog-host-exception:" + e[4:], "exception `%s` left a host call (only abort kinds may)" % e[2:]))
+            if e.startswith("T:"):
+                self.hist_thrown[e[2:]] = self.hist_thrown.get(e[2:], 0) + 1
+        for b in ("by1", "by2", "by3"):
+            if b not in outs:
+                bad.append(("prog-bystander", "the bystander thread (own script instance) did not print `%s`" % b))
+                break
+        for k, marks in enumerate(prog["threads"]):
+            for j, tr in enumerate(marks):
+                if tr and ("m%d.%d" % (k, j)) in outs and ("m%d.%d" % (k, j + 1)) not in outs:
+                    bad.append(("prog-statement-not-confined", "thread t%d: marker m%d.%d printed, m%d.%d after a transparent statement missing" % (k, k, j, k, j + 1)))
+        pend = None
+        for e in log + ["END"]:
+            if e.startswith(("W:", "D:", "E:", "X:")):
+                pend = None
+            elif e.startswith("T:") or e == "END":
+                if pend and self.derives(pend, "ScriptExceptionBase"):
+                    bad.append(("prog-error-not-reported:" + pend, "`%s` was thrown and no warning / diagnostic line followed" % pend))
+                pend = e[2:] if e.startswith("T:") else None
+        for t in f.get("trans", "").split(","):
+            if t:
+                self.transitions.add(t)
+        return bad
+
+
+def shrink_program(run_sig, prog, sig0, budget=160):
+    lines = prog["src"].split("\n")
+    tests = 0
+    changed = True
+    while changed and tests < budget:
+        changed = False
+        i = 0
+        while i < len(lines) and tests < budget:
+            ln = lines[i].strip()
+            if ln.endswith(":") or ln.startswith("end") or ln.startswith("println \"m") or ln.startswith("println \"by"):
+                i += 1
+                continue
+            cand = lines[:i] + lines[i + 1:]
+            tests += 1
+            if sig0 in run_sig({"src": "\n".join(cand), "threads": prog["threads"]}):
+                lines = cand
+                changed = True
+            else:
+                i += 1
+    return "\n".join(lines)
+
+
+def program_level(ctx, info):
+    from vlib import untypedgen
+    exe = build_prog(ctx)
+    mon = ProgMonitor(info)
+    quick = ctx.tier == "quick"
+    rng = ctx.rng("programs")
+    gen = untypedgen.Gen(rng)
+    progs = []
+    for p in sorted(glob.glob(os.path.join(VERIF, "corpus", "C04", "prog-*.json"))):
+        o = json.load(open(p))
+        progs.append(("corpus:" + os.path.basename(p), {"src": o["src"], "threads": o.get("threads", [])}))
+    for name, body in untypedgen.TARGETED:
+        progs.append(("targeted:" + name, untypedgen.targeted_program(name, body)))
+    nrand = 250 if quick else 9000
+    for i in range(nrand):
+        progs.append(("random:%d" % i, gen.program()))
+    ctx.stats["programs"] = len(progs)
+
+    def run_one(prog):
+        out, crash, infotext = common.run_lines(exe, [], ["prog " + prog["src"].encode("latin-1", "replace").hex()], timeout=60)
+        return out, crash, infotext
+
+    def sigs_of(prog):
+        out, crash, infotext = run_one(prog)
+        if crash:
+            return ["prog-crash:" + crash]
+        return [s for s, _ in mon.check(prog, out[0] if out else "")]
+
+    compiled = 0
+    failing = {}
+    reports = 0
+    t_budget = 600 if not quick else 60
+    import time as _t
+    t_fail = 0.0
+    B = 25
+    for i in range(0, len(progs), B):
+        batch = progs[i:i + B]
+        lines = ["prog " + p["src"].encode("latin-1", "replace").hex() for _, p in batch]
+        out, crash, infotext = common.run_lines(exe, [], lines, timeout=120)
+        results = []
+        if crash is None and len(out) == len(batch):
+            results = [(n, p, o, None) for (n, p), o in zip(batch, out)]
+        else:
+            for n, p in batch:                     # isolate
+                o, c, it = run_one(p)
+                results.append((n, p, o[0] if o else "", (c, it) if c else None))
+        for n, p, o, c in results:
+            if c:
+                found = [("prog-crash:" + c[0], "the harness process died: " + c[0])]
+            else:
+                if " compiled=1 " in o + " ":
+                    compiled += 1
+                found = mon.check(p, o)
+            for sig, why in found:
+                failing[sig] = failing.get(sig, 0) + 1
+                if failing[sig] > 1 or reports >= 12 or t_fail > t_budget:
+                    continue
+                t0 = _t.time()
+                small = shrink_program(sigs_of, p, sig)
+                t_fail += _t.time() - t0
+                so, sc, si = run_one({"src": small})
+                replay = common.save_replay(ctx, {
+                    "property": ctx.prop_id, "kind": "program", "case": n, "src": small, "threads": p["threads"],
+                    "observed": so[0] if so else "", "crash": sc, "crash_info": si if sc else "", "signature": sig, "why": why,
+                    "how_to_replay": "python3 tools/check.py C04 --replay <this file>"})
+                ctx.violations.append({"signature": sig, "replay": replay, "why": why, "found_input": True})
+                reports += 1
+    ctx.stats["programs_compiled"] = compiled
+    ctx.stats["program_failure_signatures"] = failing
+    ctx.stats["thrown_classes"] = mon.hist_thrown
+    ctx.stats["statement_kinds"] = gen.hist
+    ctx.oblige("%d generated programs (%d compiled) on the real engine under ASan+H2: host calls return, errors reported, statements confined, bystander and sentinel run, stacks empty at thread end" % (len(progs), compiled),
+               not failing, "; ".join("%s x%d" % kv for kv in sorted(failing.items())), reported=True)
+    # H4 transitions against the regenerated error-path model
+    names = opcode_names()
+    cache = {}
+    badtrans = []
+    EXEC = ("OP_EXEC_CMD", "OP_EXEC_METHOD", "OP_FUNC", "OP_SWITCH", "OP_DONE")
+    for t in sorted(mon.transitions):
+        op, n, dh, dp = t.split(":")
+        name = names[int(op)] if int(op) < len(names) else "?"
+        key = (name, n)
+        if key not in cache:
+            ans = common.run_model(AREA, ["vm outcomes %s %s" % (name, n)])[0]
+            cache[key] = [x.split(":") for x in ans.split(" ")[1:]] if ans.startswith("ok") else None
+        allowed = cache[key]
+        if allowed is None:
+            badtrans.append(t + " (no model for %s)" % name)
+            continue
+        ok = False
+        for k, adh, adp, fl in allowed:
+            if adh == dh and (adp == dp or fl[0] == "1" or name.startswith(EXEC)):
+                ok = True
+        if not ok:
+            badtrans.append("%s n=%s dh=%s dp=%s not among %s" % (name, n, dh, dp, ["/".join(a) for a in allowed]))
+    ctx.stats["vm_transitions_observed"] = len(mon.transitions)
+    ctx.stats["vm_opcodes_observed"] = len({t.split(":")[0] for t in mon.transitions})
+    if badtrans:
+        replay = common.save_replay(ctx, {"property": ctx.prop_id, "kind": "vm-transitions", "bad": badtrans[:40],
+                                          "note": "instruction-to-instruction effects observed through hook H4 that the regenerated error-path model does not allow"})
+        ctx.violations.append({"signature": "prog-vm-transition:" + badtrans[0].split(" ")[0], "replay": replay, "found_input": False,
+                               "why": "; ".join(badtrans[:5])})
+    ctx.oblige("every (opcode, height delta, operand bytes) observed through hook H4 is an outcome of the regenerated VM model (%d distinct)" % len(mon.transitions),
+               not badtrans, "; ".join(badtrans[:6]), reported=True)
+    return len(progs), compiled
+
+
+def theorem_failures(props_file, build_out):
+    """names of the theorems of Props/C04.lean that the failed build reports errors in"""
+    import re
+    lines = open(props_file).read().split("\n")
+    names = []
+    for m in re.finditer(r"Props/C04\.lean:(\d+):\d+", build_out):
+        ln = int(m.group(1))
+        for k in range(min(ln, len(lines)) - 1, -1, -1):
+            mm = re.match(r"\s*theorem\s+(\S+)", lines[k])
+            if mm:
+                if mm.group(1) not in names:
+                    names.append(mm.group(1))
+                break
+    return names
+
+
 def check(ctx):
     info = vmopsgen.generate()
     ctx.stats["translator"] = {k: info[k] for k in ("fixes", "opcodes", "classes", "changed")}
@@ -328,16 +554,26 @@ def check(ctx):
     if ctx.tier == "thorough" and proofs_ok:
         common.leanchecker(ctx, PROPS_MODULE)
     if not ctx.stats.get("lake_build_ok"):
-        # the model does not build against the regenerated tables: say which, then still run the
-        # implementation side where possible
-        return common.finish(ctx, "proof", {"evaluations": 0, "distinct_nontrivial": 0, "rule": "lake build failed", "exhaustive": False},
-                             TRUSTED, ASSUME, "cd lean && lake build")
+        # say which theorems no longer check against the regenerated tables, then search for
+        # concrete failing inputs with whatever still builds (the driver does not import Props)
+        for n in theorem_failures(PROPS_FILE, out):
+            ctx.oblige("theorem Morfuse.Props.C04." + n, False, "does not check against the regenerated Gen/OpAccept.lean")
+        ok, out2 = common.lake_build(["driver"])
+        if not ok:
+            raise common.CheckError("the model driver does not build:\n" + out2[-3000:])
+        ans = common.run_model(AREA, ["vm check"])[0]
+        ctx.stats["vm_opcodes_not_confined"] = ans.split(" ")[1:]
+        if len(ans.split(" ")) > 1:
+            ctx.notes.append("error paths that do not restore stack height / code position: " + ans)
     d, nclean, ub = operator_level(ctx, info)
-    ctx.samples = ["div i:-9223372036854775808 i:-1", "evalat S{1;2} i:2", "setat s:616263 i:-1 c:120"]
+    nprog, ncomp = program_level(ctx, info)
+    ctx.samples = ["div i:-9223372036854775808 i:-1", "evalat S{1;2} i:2", "setat s:616263 i:-1 c:120",
+                   "prog main:\\n local.x = 5\\n local.x.y[1] = 3\\n println \"alive\"\\nend"]
     cov = {
-        "evaluations": d.cases, "distinct_nontrivial": len(d.distinct),
-        "rule": "operator lines: every operator/cast/index function on every (kind x kind) pair with boundary values, batched 150 lines per case; distinct by SHA-1 of the case",
+        "evaluations": d.cases + nprog, "distinct_nontrivial": len(d.distinct) + ncomp,
+        "rule": "operator lines: every operator/cast/index function on every (kind x kind) pair with boundary values, 150 lines per case, distinct by SHA-1; programs: corpus + targeted + random untyped programs, non-trivial = compiled",
         "op_lines": d.lines, "op_histogram": d.hist, "model_answer_kinds": d.outkinds, "exhaustive": False,
+        "programs": nprog, "programs_compiled": ncomp,
     }
     return common.finish(ctx, "proof", cov, TRUSTED, ASSUME,
                          "cd lean && lake build && lake env lean <Audit.lean with #print axioms>; tools/check.py C04")
@@ -345,7 +581,22 @@ def check(ctx):
 
 def replay(ctx, obj):
     vmopsgen.generate()
-    common.lake_build()
+    common.lake_build(["driver"])
+    if obj.get("kind") == "program":
+        exe = build_prog(ctx)
+        out, crash, info = common.run_lines(exe, [], ["prog " + obj["src"].encode("latin-1", "replace").hex()], timeout=60)
+        print(obj["src"])
+        print("observed:", (out[0] if out else "<none>").replace("|", "\n    "))
+        if crash:
+            print("CRASH", crash)
+            print(info)
+        mon = ProgMonitor({})
+        found = [("prog-crash:" + crash, "")] if crash else mon.check({"src": obj["src"], "threads": obj.get("threads", [])}, out[0] if out else "")
+        print("replay:", "still fails: %s" % [s for s, _ in found] if found else "no violation")
+        return 1 if found else 0
+    if obj.get("kind") in ("vm-transitions", "proof-obligation"):
+        print(json.dumps(obj, indent=1))
+        return 1
     exe = build_ops(ctx)
     d = Diff(ctx, OpProp(), exe, AREA)
     impl, crash, info, model = d.both(obj["lines"])
